@@ -9,6 +9,6 @@ PID = "C17"
 
 def run(chk):
     chk.recheck_proofs()
-    alias_common.apply(chk, 200 if chk.tier == "quick" else 3000)
+    alias_common.apply(chk, 200 if chk.tier == "quick" else 40000)
     gen_modes.apply(chk, PID)
     chk.assumptions += gen_common.ASSUMPTIONS + ["absence of state shared between the files of a package (fresh compiler and generator per file) is observed by byte comparison, not proved"]
